@@ -10,7 +10,8 @@ from vlib.runner import Failure
 ID = "C13"
 LEVEL = "exploration"
 RULE = ("case = (requests per client thread, optional BgServingThread, the peer's answer plan incl. out-of-order answers "
-        "and unsolicited requests, schedule). 2-3 threads issue synchronous requests on ONE real Connection against a "
+        "and unsolicited requests - also pairs of requests that FAIL in different functions of the local service, whose exception "
+        "replies must each carry their own remote traceback -, schedule). 2-3 threads issue synchronous requests on ONE real Connection against a "
         "scripted raw peer; every source line of serve/_dispatch*/_seq_request_callback/_async_request/_get_seq_id/_send/"
         "AsyncResult.__call__/wait/_bg_server is a preemption point. Schedules: Hypothesis-generated preemption lists "
         "(bound 3 quick, 5 thorough) plus preemption-bounded DFS on the smallest shape. oracle: every request returns "
@@ -24,7 +25,7 @@ ASSUMPTIONS = ["preemption at source-line granularity of the traced functions; i
                "a thread that is merely late because of known finding F4/F4b (C14) still gets the right value; lateness is C14's"]
 
 TRACED = ["serve", "_dispatch", "_dispatch_request", "_seq_request_callback", "_async_request", "_get_seq_id", "_send",
-          "__call__", "wait", "_bg_server", "async_request", "sync_request", "value", "poll_all", "poll", "add_callback"]
+          "__call__", "wait", "_bg_server", "async_request", "sync_request", "value", "poll_all", "poll", "add_callback", "_box_exc"]
 
 
 def run_case(case, chooser):
@@ -41,8 +42,18 @@ def run_case(case, chooser):
     out = {"results": {}, "problems": [], "lost_wakeup": None}
     with k.installed():
         link = sk.Link(k)
-        conn = rpyc.VoidService()._connect(Channel(link.a), {"sync_request_timeout": 30})
+        class Failing(rpyc.Service):
+            # two requests of the peer's that fail in different functions: each exception must carry its OWN remote traceback
+            def exposed_fail_a(self):
+                raise ValueError("a")
+
+            def exposed_fail_b(self):
+                raise KeyError("b")
+        conn = Failing()._connect(Channel(link.a), {"sync_request_timeout": 30})
+        root_id = conn._box(conn._local_root)[1]        # as a GETROOT request would register it
         peer = RawPeer(link.b)
+        failing = {}               # seq -> name of the function that request fails in
+        exc_replies = out["exc_replies"] = {}
         dispatched = []
         receivers = []
         orig_dispatch = conn._dispatch
@@ -75,6 +86,8 @@ def run_case(case, chooser):
                 if kind == rc.MSG_REQUEST:
                     seen_req_seqs.append(seq)
                     outstanding.append((seq, args[1][1][0]))
+                elif kind == rc.MSG_EXCEPTION and seq in failing:
+                    exc_replies[seq] = args
 
             def send_reply(seq, tok):
                 peer.reply(seq, box_value(tok))
@@ -94,6 +107,15 @@ def run_case(case, chooser):
                     peer.send_msg(rc.MSG_REQUEST, seq, (rc.HANDLERS["PING"], box_value(("unsolicited-%d" % unsolicited,))))
                     sent_frames.append(rc.dump((rc.MSG_REQUEST, seq, (rc.HANDLERS["PING"],
                                                                       box_value(("unsolicited-%d" % unsolicited,))))))
+                elif act[0] == "F" and unsolicited < 3:
+                    unsolicited += 1
+                    seq = 10 ** 6 + unsolicited
+                    fname = "fail_a" if len(failing) % 2 == 0 else "fail_b"
+                    failing[seq] = fname
+                    body = (rc.HANDLERS["CALLATTR"], (rc.LABEL_TUPLE, ((rc.LABEL_LOCAL_REF, root_id), (rc.LABEL_VALUE, fname),
+                                                                       (rc.LABEL_VALUE, ()), (rc.LABEL_VALUE, ()))))
+                    peer.send_msg(rc.MSG_REQUEST, seq, body)
+                    sent_frames.append(rc.dump((rc.MSG_REQUEST, seq, body)))
                 elif act[0] == "S":
                     k.sleep(act[1] / 10.0)
                 else:
@@ -163,6 +185,15 @@ def run_case(case, chooser):
                 if out["results"].get(tok, [None])[0] == "value" and runs != [tok]:
                     P.append(("callback", "completion callback ran %d times" % len(runs) if len(runs) != 1 else
                               "completion callback saw another value", [tok, runs]))
+        for seq, fname in sorted(failing.items()):
+            got = exc_replies.get(seq)
+            if got is None:
+                continue                 # (answered after the run ended, or never: completion of the peer's requests is C08's)
+            tb_text = got[3] if type(got) is tuple and len(got) > 3 and type(got[3]) is str else repr(got)
+            other = "fail_b" if fname == "fail_a" else "fail_a"
+            if ("exposed_" + other) in tb_text or ("exposed_" + fname) not in tb_text:
+                P.append(("foreign-traceback", "an exception reply carries the remote traceback of another request",
+                          {"request": fname, "traceback-tail": tb_text[-160:]}))
         if len(set(seen_req_seqs)) != len(seen_req_seqs):
             P.append(("seq-reused", "two requests carried the same sequence number", sorted(seen_req_seqs)))
         if not k.deadlock:
@@ -191,6 +222,8 @@ def check(case, chooser, rec):
                "out-of-order:%s" % bool(o.get("out_of_order")), "cross-received:%s" % o["cross_received"]]
     if "cb" in (case.get("style") or []):
         classes.append("async-with-callback")
+    if sum(1 for a in case["plan"] if a[0] == "F") >= 2:
+        classes.append("two-failing-requests-of-the-peer")
     if any(a[0] == "U" for a in case["plan"]):
         classes.append("unsolicited-request")
     for _, tag in o["taken"]:
@@ -204,10 +237,10 @@ def check(case, chooser, rec):
 
 def plans():
     act = st.one_of(st.tuples(st.just("A"), st.integers(0, 3)), st.tuples(st.just("A"), st.integers(0, 3)),
-                    st.tuples(st.just("W"), st.just(0)), st.tuples(st.just("U"), st.just(0)),
+                    st.tuples(st.just("W"), st.just(0)), st.tuples(st.just("U"), st.just(0)), st.tuples(st.just("F"), st.just(0)),
                     st.tuples(st.just("S"), st.integers(1, 12))).map(list)
     prelude = st.sampled_from([[], [], [["S", 1], ["W", 0], ["A", 1]], [["S", 2], ["W", 0], ["A", 2], ["A", 1]],
-                               [["S", 1], ["W", 0], ["U", 0], ["A", 1]]])
+                               [["S", 1], ["W", 0], ["U", 0], ["A", 1]], [["S", 1], ["W", 0], ["F", 0], ["F", 0]]])
     return st.tuples(prelude, st.lists(act, max_size=6)).map(lambda t: t[0] + t[1])
 
 
@@ -249,11 +282,13 @@ def plan(tier, scale):
         out += [{"part": "dfs", "base": {"reqs": [1, 1], "bg": bg, "plan": pl}, "bound": 1, "limit": 1500}
                 for bg in (False, True) for pl in ([], [["W", 0], ["A", 1]])]
         out.append({"part": "dfs", "base": {"reqs": [1, 1], "bg": True, "plan": [], "style": ["cb", "sync"]}, "bound": 1, "limit": 1500})
+        out.append({"part": "dfs", "base": {"reqs": [1, 1], "bg": True, "plan": [["S", 1], ["W", 0], ["F", 0], ["F", 0]]}, "bound": 1, "limit": 2500})
         return out
     out = [{"part": "random", "n": int(9000 * scale), "bound": 5} for _ in range(14)]
     out += [{"part": "dfs", "base": {"reqs": [1, 1], "bg": bg, "plan": pl}, "bound": 2, "limit": 60000}
             for bg in (False, True) for pl in ([], [["W", 0], ["A", 1]])]
     out.append({"part": "dfs", "base": {"reqs": [1, 1], "bg": True, "plan": [], "style": ["cb", "sync"]}, "bound": 2, "limit": 60000})
+    out.append({"part": "dfs", "base": {"reqs": [1, 1], "bg": True, "plan": [["S", 1], ["W", 0], ["F", 0], ["F", 0]]}, "bound": 2, "limit": 60000})
     return out
 
 
